@@ -1,10 +1,10 @@
 #!/bin/bash
-# usage: tools/confirm_mutant.sh <PROP> <mK>   (reads /tmp/mut/out_<PROP>/<mK>/)
+# usage: [OUTPRE=out2 TAG=r2] tools/confirm_mutant.sh <PROP> <mK>   (reads /tmp/mut/${OUTPRE:-out}_<PROP>/<mK>/, keeps as seeded/<PROP>-${TAG}<mK>)
 # Confirms in a scratch worktree of /repo's HEAD: demo passes clean, fails with the patch, the suite has no new failures.
 # On success copies patch.diff, demo.py, meta.json (augmented) to /verif/seeded/<PROP>-<mK>/.
-PROP="$1"; MK="$2"; SRC=/tmp/mut/out_$PROP/$MK
-WT=/tmp/mut/confirm_${PROP}_$MK
-LOG=/tmp/mut/confirm_${PROP}_$MK.log
+PROP="$1"; MK="$2"; SRC=/tmp/mut/${OUTPRE:-out}_$PROP/$MK
+WT=/tmp/mut/confirm${TAG}_${PROP}_$MK
+LOG=/tmp/mut/confirm${TAG}_${PROP}_$MK.log
 [ -f "$SRC/patch.diff" ] || { echo "$PROP $MK NO-PATCH"; exit 2; }
 git -C /repo worktree add -q --detach "$WT" HEAD 2>/dev/null || { echo "$PROP $MK WORKTREE-FAILED"; exit 2; }
 cleanup() { git -C /repo worktree remove --force "$WT" 2>/dev/null; rm -rf "$WT"; }
@@ -24,7 +24,7 @@ for x in $(echo "$t" | grep -o "NEW-FAIL [^ ]*" | cut -d' ' -f2); do
   case "$x" in *sourcemap_test::test_no_regression_with_sourcemap*|*test_sourcemap_fails_because_not_enabled*|*test_many_ifs*) ;; *) flaky_only=0;; esac
 done
 if [ "$c0" = 0 ] && [ "$c1" != 0 ] && { [ "$nf" = 0 ] || [ "$flaky_only" = 1 ]; }; then
-  D=/verif/seeded/$PROP-$MK; mkdir -p "$D"
+  D=/verif/seeded/$PROP-${TAG}$MK; mkdir -p "$D"
   cp "$SRC/patch.diff" "$SRC/demo.py" "$D/"
   /venv/bin/python - "$SRC/meta.json" "$D/meta.json" "$c0" "$c1" "$t" <<'PY'
 import json,sys
